@@ -638,7 +638,9 @@ fn gen_settings(rng: &mut Rng, sw: &Swarm, comps: &[Component]) -> SettingsDesc 
                 } else {
                     None
                 },
-                derives: if rng.chance(1, 2) {
+                // a per-type derive is the caller's promise that the members
+                // support it; only made when every type gets PartialEq anyway
+                derives: if rng.chance(1, 2) && s.derives.iter().any(|d| d == "PartialEq") {
                     vec!["PartialEq".into()]
                 } else {
                     vec![]
